@@ -85,6 +85,7 @@ type Model struct {
 	ended      []*MSess
 	incs       map[uint64]int
 	rx         map[string]*MRx
+	perioSeen  map[RuleKey]perioSeen
 	recov      []byte
 	pktTag     uint64
 	pendK      []*PendK
